@@ -101,7 +101,7 @@ CLAIMED["C15"] = dict(
          "each library total is the documented sum of parts on one and the same model object, (D4) each printed "
          "sum and percentage of both detailed writers is an algebraic identity of its printed parts / stated "
          "reference, identical in the try and fallback branch, (D5) defaults equal the README table. These are "
-         "identities of the program text, valid for every input and all 480 option combinations. (D6) The echo clause structurally: the SLHA container is written only by the readers and by fill_block_entry, every model filler is a const member, and the program writes only the documented output blocks.",
+         "identities of the program text, valid for every input and all 480 option combinations. (D6) The echo clause structurally: the SLHA container is written only by the readers and by fill_block_entry, every model filler is a const member, and the program writes only the documented output blocks. Third session: (D7) THDM_reader sets every field of thdm::Config from the same-named program option (named assignment, or braced initialiser matched against the struct's declaration order).",
     note=TRUST + "README.md is parsed as the statement of documented behaviour. Not decided: printed digits and "
          "rounding, the echo of the input blocks (SLHAea).",
     ref="3 C15")
@@ -120,7 +120,7 @@ CLAIMED["C13"] = dict(
          "name; unknown keys write nothing; the matrix/vector block readers write their output only entry by entry from the "
          "data lines (an entry a block does not name keeps the value of earlier blocks); configuration fields only through the validating readers with the "
          "README's ranges. A key swapped between two generations or a PDG code mapped to the wrong mass is "
-         "invisible to tests that use symmetric points; here it is a table mismatch. Second session: a parsed 64-bit integer is not narrowed without a range test (K7); every block at the model scale is read inside the loop over all blocks of the name (K4).",
+         "invisible to tests that use symmetric points; here it is a table mismatch. Second session: a parsed 64-bit integer is not narrowed without a range test (K7); every block at the model scale is read inside the loop over all blocks of the name (K4). Third session: (K1c) SLHAea::to<T>, the fallback converter, is a plain boost::lexical_cast (whole-token) on its only path.",
     note=TRUST + "specs/slha_keys.py is the independent table (each row's keyword is checked against the "
          "repository's documentation; a mismatch makes the check inconclusive, not passing). Not decided: "
          "SLHAea's tokeniser (comments, whitespace, order of blocks).",
